@@ -525,7 +525,7 @@ func (c *ctx) caseM(b *batch, l *Loaded, name string) error {
 			}
 			c.decodeCase(b, l, name, in, zero, "valid")
 			// concatenation (C09)
-			if c.want("concat") && c.r.Intn(3) == 0 {
+			if c.want("concat") && (c.has("concat") || c.r.Intn(3) == 0) {
 				v2 := gen.Message(c.r, l.File, name, c.valOpts(), 0)
 				if rb2, err := detMarshal.Marshal(l.Ref.FromVal(name, v2)); err == nil {
 					in2 := w.Rewrite(name, rb2, 0)
